@@ -17,7 +17,7 @@ using sim::ns_t;
 
 enum class SK : int {
     // application
-    Run, Publish, Subscribe, Unsubscribe, Receive, CancelOp, CancelClient, Disconnect, Destroy, Recreate, ReAuth,
+    Run, Publish, Subscribe, Unsubscribe, Receive, CancelOp, CancelClient, Disconnect, Destroy, Recreate, ReAuth, PublishBurst,
     // broker
     BrokerPublish, BrokerDisconnect, BrokerRestart, BrokerBurst,
     // faults
@@ -80,5 +80,7 @@ std::string step_str(const Step& s);
 Plan generate(uint64_t seed, const std::string& focus);
 // plan for the C19 chunking differential: one connection, a burst of QoS 0 messages (some mutated) in one segment
 Plan generate_diff(uint64_t seed);
+// identifier exhaustion (65535 + n outstanding QoS 1 publishes) and identifier leak (70000 rejected requests) scenarios (C08, C15)
+Plan generate_exhaust(uint64_t seed);
 
 } // namespace app
